@@ -118,7 +118,8 @@ func Detect(r io.Reader) FileType {
 	case contains(br, []byte("<assembly"), 256),
 		contains(br, []byte(":assembly"), 256):
 		return FileTypeAppManifest
-	case hasPrefix(br, []byte{0xcf, 0xfa, 0xed, 0xfe}), hasPrefix(br, []byte{0xce, 0xfa, 0xed, 0xfe}):
+	case hasPrefix(br, []byte{0xcf, 0xfa, 0xed, 0xfe}), hasPrefix(br, []byte{0xce, 0xfa, 0xed, 0xfe}),
+		hasPrefix(br, []byte{0xfe, 0xed, 0xfa, 0xcf}), hasPrefix(br, []byte{0xfe, 0xed, 0xfa, 0xce}):
 		return FileTypeMachO
 	case hasPrefix(br, []byte{0xca, 0xfe, 0xba, 0xbe}):
 		return FileTypeMachOFat
